@@ -403,6 +403,34 @@ def r_best(ctx: Ctx, model):
                    nontrivial_key=("best", rm, tuple(fails)))
 
 
+def r_best_default(ctx: Ctx, model):
+    """models='guess' (also the default): every model of the module's guess list is tried and the best of them returned"""
+    from ..absint import ClassRef
+    guess = model.func(f"{MI}.guess")
+    mi = model.cls(MI)
+    for how in ("guess", "<omitted>"):
+        I = make_interp(model)
+        tried = []
+
+        def ctor(I, ci, args, kwargs, node, tried=tried):
+            tried.append(kwargs.get("model"))
+            return Obj(kind="FitIso", label=f"iso{len(tried)}", attrs={"model": Obj(kind="M", attrs={"rmse": Num.const(100 - len(tried)), "name": kwargs.get("model")}),
+                                                                       "idx": len(tried)})
+        I.overrides[MI] = ctor
+        kw = {"pressure": [Num.const(1)], "loading": [Num.const(1)]}
+        if how == "guess":
+            kw["models"] = "guess"
+        outs = I.explore(lambda I: (tried.clear(), I.call_func(guess, [], dict(kw), None, self_obj=ClassRef(mi)), list(tried))[1:])
+        want = I.global_value("pygaps.core.modelisotherm", "_GUESS_MODELS")
+        want = list(want) if isinstance(want, (list, tuple)) else None
+        ok = want is not None and len(want) >= 2 and len(outs) == 1 and outs[0].kind == "ok" and list(outs[0].value[1]) == want \
+            and isinstance(outs[0].value[0], Obj) and outs[0].value[0].attrs.get("idx") == len(want)
+        ctx.ob(ok, Finding("C12.F-best", guess.where, f"guess|default-list|{how}",
+                           f"guess(models={how}) tries {outs[0].value[1] if outs and outs[0].kind == 'ok' else [repr(o)[:120] for o in outs[:2]]}; required every model of "
+                           f"_GUESS_MODELS ({want}) and the one with the smallest error (here the last) returned"),
+               nontrivial_key=("best", "default", how))
+
+
 def kwval(call, name):
     for k in call.keywords:
         if k.arg == name:
@@ -585,6 +613,7 @@ def run(ctx: Ctx):
     r_data(ctx, model)
     r_temperature(ctx, model)
     r_best(ctx, model)
+    r_best_default(ctx, model)
     r_branch(ctx, model)
     from ..sites import no_memoisation
     ctx.rule("F-fresh: no caching decorator on any function of pygaps.modelling., pygaps.core.modelisotherm.")
